@@ -137,7 +137,7 @@ func gen(r *hx.Rand, tier string) []json.RawMessage {
 	}
 	np := 400
 	if thorough {
-		np = 20000
+		np = 12000
 	}
 	for i := 0; i < np; i++ {
 		add(input{Kind: "path", P: []byte(randPath(r))})
@@ -146,7 +146,7 @@ func gen(r *hx.Rand, tier string) []json.RawMessage {
 	// ---- tools on random recorded trees
 	nt := 7
 	if thorough {
-		nt = 300
+		nt = 60
 	}
 	for t := 0; t < nt; t++ {
 		files := randFS(r, 12)
@@ -239,7 +239,7 @@ func gen(r *hx.Rand, tier string) []json.RawMessage {
 	// ---- WriteArchive determinism / round trip
 	nw := 25
 	if thorough {
-		nw = 400
+		nw = 150
 	}
 	for i := 0; i < nw; i++ {
 		n := r.Intn(9)
@@ -275,7 +275,7 @@ func gen(r *hx.Rand, tier string) []json.RawMessage {
 	}
 	na := 20
 	if thorough {
-		na = 300
+		na = 100
 	}
 	types := []byte{tar.TypeReg, tar.TypeReg, tar.TypeReg, tar.TypeDir, tar.TypeSymlink, tar.TypeFifo, tar.TypeLink}
 	for i := 0; i < na; i++ {
@@ -298,7 +298,7 @@ func gen(r *hx.Rand, tier string) []json.RawMessage {
 	// ---- trace sources through a real SQLite source table
 	nsrc := 25
 	if thorough {
-		nsrc = 400
+		nsrc = 150
 	}
 	roots := []string{"github.com/sarchlab/akita/v5", "sim", "", ".", "..", "/abs", "a/../..", "r//s/", "./r", " ", "x/..", "é"}
 	for i := 0; i < nsrc; i++ {
